@@ -70,6 +70,8 @@ type summary struct {
 	Sites       int            `json:"sites"`
 	OpKinds     map[string]int `json:"op_kinds"`
 	MaxOpSteps  uint64         `json:"max_op_steps"`
+	BigCalls    uint64         `json:"big_calls"`
+	BigCost     uint64         `json:"big_cost"`
 	Violations  int            `json:"violations"`
 	Deadlocks   int            `json:"deadlocks"`
 	WallS       float64        `json:"wall_s"`
@@ -255,6 +257,8 @@ func main() {
 		sum.LastRun = run
 		sum.Ops += o.Ops
 		sum.Steps += o.Steps
+		sum.BigCalls += o.BigCalls
+		sum.BigCost += o.BigCost
 		sum.Switches += o.Switches
 		sum.Preempts += o.Preempts
 		sum.SyncPre += o.SyncPre
